@@ -5,8 +5,16 @@ use crate::linalg::{
 };
 
 /// Computes the Cholesky decomposition of the matrix `a` using the Cholesky-Banachiewicz
-/// algorithm.
+/// algorithm. Panics if the matrix is not positive definite (see [try_cholesky] for a
+/// non-panicking version).
 pub fn cholesky(a: &[f64]) -> Vec<f64> {
+    try_cholesky(a).expect("matrix is not positive definite")
+}
+
+/// Computes the Cholesky decomposition of the symmetric matrix `a` using the
+/// Cholesky-Banachiewicz algorithm, or returns `None` if some pivot is not positive, that is, if
+/// the matrix is not (numerically) positive definite.
+pub fn try_cholesky(a: &[f64]) -> Option<Vec<f64>> {
     assert!(is_symmetric(a));
     let n = is_square(a).unwrap();
 
@@ -17,14 +25,18 @@ pub fn cholesky(a: &[f64]) -> Vec<f64> {
             let s = dot(&l[(j * n)..(j * n + j)], &l[(i * n)..(i * n + j)]);
 
             if i == j {
-                l[i * n + j] = (a[i * n + i] - s).sqrt();
+                let d = a[i * n + i] - s;
+                if !(d > 0.) {
+                    return None;
+                }
+                l[i * n + j] = d.sqrt();
             } else {
                 l[i * n + j] = (a[i * n + j] - s) / l[j * n + j];
             }
         }
     }
 
-    l
+    Some(l)
 }
 
 /// Solves the system Lx=b, where L is a lower triangular matrix (e.g., a Cholesky decomposed
